@@ -85,8 +85,6 @@ def run(eng, tier):
                     if ns == 'bid' and v != 'CreateBid':
                         bs = BidSpec(base)
                         dom = Dom(p); dom.assume_bid(base, p.variant_of(bs.FEE) == 'Some')
-                        for f, _, _ in p.facts:
-                            if f[0] == 'val' and f[2] is False and f[1][0] == 'lt' and f[1][1] == I(0): dom.add_equality(f[1][2], I(0))
                         nremq = SUB(bs.Q, nget(val, (('f', 'accumulated_quote'),))); nremb = SUB(bs.B, nget(val, (('f', 'accumulated_base'),)))
                         eng.ob(dom.eq(nremq, MUL(bs.P, nremb)), PROP, 'I4', v, '%s: after the operation unspent quote %s != price x unfilled size %s' % (v, dom.show(nremq), dom.show(MUL(bs.P, nremb))), where=w['site'], detail=p.describe(12),
                                sample={'rule': 'I4', 'writer': v, 'unspent_quote': dom.show(nremq)})
